@@ -885,9 +885,8 @@ void Lexer::lexIntegerOrFloatingConstant(SyntaxToken* tk)
             yyinput();
             lexHexadecimalDigitSequence();
 
-            if (yychar_ == '.') {
+            if (yychar_ == '.' || yychar_ == 'p' || yychar_ == 'P') {
                 tk->syntaxK_ = SyntaxKind::FloatingConstantToken;
-                yyinput();
 
                 if (tree_->parseOptions().languageDialect().std() < LanguageDialect::Std::C99) {
                     diagReporter_.IncompatibleLanguageDialect(
@@ -895,7 +894,11 @@ void Lexer::lexIntegerOrFloatingConstant(SyntaxToken* tk)
                                 LanguageDialect::Std::C99);
                 }
 
-                lexHexadecimalDigitSequence();
+                // The fractional part is optional (6.4.4.2): 0x1p3.
+                if (yychar_ == '.') {
+                    yyinput();
+                    lexHexadecimalDigitSequence();
+                }
                 lexBinaryExponentPart();
                 lexFloatingOrImaginaryFloatingSuffix(tk, yytext_ - yytext);
                 return;
